@@ -260,7 +260,9 @@ _ALSO = {
             "text, for the io-writer and Display entry points); a token `+c` / `-c` with c an R7RS <sign subsequent> "
             "character (138 cases) is read as a symbol, as the printer writes such names verbatim.", None),
     "C02": ("the empty list is printed as `()` under every printer option value; with the nil-as-false option nil is "
-            "written exactly as `false` is under every boolean syntax; text reaches an io sink only through write_all / "
+            "written exactly as `false` is under every boolean syntax; with Emacs Lisp bytes syntax each of the 256 byte "
+            "values is written as a three-digit octal escape between quotes and the reader's octal decoder yields the same "
+            "byte; text reaches an io sink only through write_all / "
             "write_fmt; on the leading-digit path the token reaches the numeric sub-parser without a data-dependent "
             "pre-filter.", None),
     "C03": ("the reader's lookahead byte is discarded only right after a peek that returned a byte (typestate over all "
@@ -288,7 +290,9 @@ _ALSO = {
             "and a Joint one continues it, at the start of a symbol and inside one (70 cases).",
             "abstract evaluation of the macro crate's token parser per punctuation character, compared with byte classes "
             "and token kinds extracted from the text parser"),
-    "C10": ("the dotted-tail handling of the list twins maps each tail token to the same outcome.", None),
+    "C10": ("the dotted-tail handling of the list twins maps each tail token to the same outcome; after a `.` both list "
+            "parsers classify the following byte identically (dotted tail vs symbol starting with a dot) for all 256 byte "
+            "values and end of input.", None),
     "C11": ("for a quote shorthand the end position handed to Datum::quotation is read before the quoted datum is parsed; "
             "reader fields are identified by type and accessors by signature; the stream's line/column counter and the "
             "slice's recount special-case exactly the same byte values (only LF) and advance for each of the others (256 "
